@@ -31,8 +31,9 @@ ASSUMPTIONS = [
     'where two neighbouring keys are natively comparable, with the native tuple order as well',
     'empty tables: listby/groupby return an empty table; only "no rows" is demanded of unlist/ungroup (ungroup of an empty table has no columns at all)',
     'pivot: non-empty tables only (dictable.pivot of an empty table raises, DESIGN section 4); x = 1-2 column names (str or list), y and z column names',
-    'pivot: the y column holds strings, ints, datetimes or a mix of these three (label rendering must be injective: no None, and no floats because 1 and 1.0 '
-    'are one key but two labels); a label is accepted when it equals the y value or str(y value)',
+    'pivot: the y column holds only strings, only ints, only floats, only datetimes, or a mix of strings/ints/datetimes (label rendering must be injective: '
+    'no None, no digit strings next to ints, and never ints next to floats because 1 and 1.0 are one key but two labels); '
+    'a label is accepted when it equals the y value or str(y value)',
     'pivot: z cells are not None (so that "None cell" means "no row"); with agg=sum the z cells are numbers',
     'pivot: aggregators are None (list of values), pyg_base.last, builtin sum, builtin len; row and column ORDER of the pivot table is not asserted (the statement does not promise it)',
     'groupby sub-tables are expected to list the rows of their key in original row order ("likewise")',
@@ -185,7 +186,7 @@ def _regroup_case(draw, tier, with_grp=False):
     by = list(draw(st.permutations(cols))[:nby])
     data = {}
     for c in cols:
-        data[c] = list(draw(_column(n, c in by)))
+        data[c] = list(draw(_column(top, c in by)))[:n]      # drawn at full length and cut, so that the row count shrinks on its own
     spec = dict(cols=cols, data=data, by=by, form=draw(st.sampled_from(['names', 'list'])))
     if with_grp:
         spec['grp'] = draw(st.sampled_from(['grp', 'grp', 'g']))
@@ -339,6 +340,7 @@ _Y_KINDS = {
     'str': S_STRS,
     'int': S_INTS,
     'dt': s_dt(4),
+    'float': S_FLOATS,
     'mixed': st.one_of(st.sampled_from(['a', 'b', '']), st.integers(0, 2), s_dt(2)),
 }
 _Z_ANY = s_scalar(none=False)
@@ -364,15 +366,15 @@ def _pivot_case(draw, tier):
     cols = list(draw(st.permutations(_COLS))[:nx + 2 + extra])
     x, y, z = cols[:nx], cols[nx], cols[nx + 1]
     agg = draw(st.sampled_from(['none', 'last', 'sum', 'len']))
-    ykind = draw(st.sampled_from(['str', 'int', 'dt', 'mixed']))
+    ykind = draw(st.sampled_from(['str', 'int', 'dt', 'float', 'mixed', 'mixed']))
     data = {}
     for c in x:
-        data[c] = list(draw(_column(n, True)))
+        data[c] = list(draw(_column(top, True)))[:n]
     ypool = draw(st.lists(_Y_KINDS[ykind], min_size=1, max_size=4).filter(lambda p: len(p) > 1) | st.lists(_Y_KINDS[ykind], min_size=1, max_size=4))
-    data[y] = draw(st.lists(st.sampled_from(ypool), min_size=n, max_size=n))
-    data[z] = draw(st.lists(_Z_NUM if agg == 'sum' else st.one_of(_Z_ANY, _Z_NUM), min_size=n, max_size=n))
+    data[y] = draw(st.lists(st.sampled_from(ypool), min_size=top, max_size=top))[:n]
+    data[z] = draw(st.lists(_Z_NUM if agg == 'sum' else st.one_of(_Z_ANY, _Z_NUM), min_size=top, max_size=top))[:n]
     for c in cols[nx + 2:]:
-        data[c] = list(draw(_column(n, False)))
+        data[c] = list(draw(_column(top, False)))[:n]
     if draw(st.integers(0, 3)) == 0:
         # unique (x, y) pairs by construction: keep the first row of every pair
         keep = []
@@ -490,20 +492,20 @@ def _label_of(lab, yv):
 # ----------------------------------------------------------------------------- registry
 
 SUBS = [
-    Sub('listby_unlist', lambda tier: _regroup_case(tier), run_listby, quick=2500, thorough=25000,
+    Sub('listby_unlist', lambda tier: _regroup_case(tier), run_listby, quick=4000, thorough=25000,
         rule='tables of 0-9 rows x 2-4 columns (thorough: 0-14 x 2-5), cells None/ints/floats/strings/datetimes with heavy duplication in key columns '
              '(small value pools, homogeneous and mixed-type, int/float twins); keys = a non-empty proper subset in any order, as *names or one list. '
              'oracle: nested-loop grouping of the spec; listby has exactly one row per distinct key, other cells list the key\'s values in row order; '
              'unlist = contiguous key blocks, each the key\'s rows in original order, blocks increasing under cmp (and natively where comparable). '
              'non-trivial = some key with >= 2 rows and >= 2 distinct keys',
         floor=0.3, class_floors={'mixed_type_key': 0.15, 'int_and_float_key': 0.03, 'order_visible': 0.2, 'reordered': 0.2, 'nkeys=2': 0.1}),
-    Sub('groupby_ungroup', lambda tier: _regroup_case(tier, with_grp=True), run_groupby, quick=2500, thorough=25000,
+    Sub('groupby_ungroup', lambda tier: _regroup_case(tier, with_grp=True), run_groupby, quick=4000, thorough=25000,
         rule='same tables and keys as listby_unlist, default and custom grp column name. oracle: one row per distinct key, each sub-table holds exactly '
              'the other columns of the key\'s rows in row order, sizes add up to len(d), ungroup() has the original columns and the original multiset '
              'of rows (key cells by ==, other cells by type and value). non-trivial = some key with >= 2 rows and >= 2 distinct keys',
         floor=0.3, class_floors={'mixed_type_key': 0.15, 'single_and_multi_row_groups': 0.15, 'grp=g': 0.1}),
-    Sub('pivot_unpivot', lambda tier: _pivot_case(tier), run_pivot, quick=2500, thorough=25000,
-        rule='non-empty tables of 1-9 rows (thorough 1-14), x = 1-2 mixed-type key columns, y = strings | ints | datetimes | a mix of the three, '
+    Sub('pivot_unpivot', lambda tier: _pivot_case(tier), run_pivot, quick=4000, thorough=25000,
+        rule='non-empty tables of 1-9 rows (thorough 1-14), x = 1-2 mixed-type key columns, y = strings | ints | floats | datetimes | a mix of strings, ints and datetimes, '
              'z non-None, optional bystander column, agg in None/last/sum/len, a quarter of the cases with unique (x, y) pairs by construction. '
              'oracle: nested-loop model {(x key, y value): z values in row order}; pivot rows <-> distinct x keys and label columns <-> distinct y values '
              'are bijections, every cell = agg(values) or None; unpivot minus None cells = one row per (x, y) with the aggregated z (multiset). '
